@@ -434,8 +434,8 @@ package parser
 
 //@ func (p *Parser) addImplicitTexts
 //@   include PStateOnly
-//@   requires [C06:text-table] TextTableOK(p)
-//@   ensures [C06:text-table] TextTableOK(p)
+//@   requires [C06,C09:text-table] TextTableOK(p)
+//@   ensures [C06,C09:text-table] TextTableOK(p)
 //@   ensures [C06:args-len] forall c *ast.CommandStatement :: {c.Args} len(c.Args) == old(len(c.Args))
 //@   loopinv [C06:args-len-inv] forall c *ast.CommandStatement :: {c.Args} len(c.Args) == old(len(c.Args))
 //@   loopinv [C06:slot-inv] forall k int :: {texts[k]} (0 <= k && k < len(texts)) ==> TextSlotOK(texts[k])
@@ -448,7 +448,7 @@ package parser
 // one record per turn: its argument slot receives the label registered for its content; a content seen for the first
 // time gets the next number of its owning script and exactly one new definition carrying that content (C06, C16: and
 // the token of the literal itself)
-//@     transition [C06,C16:hoist-text] prev(indom(p.inlineTextsSet, mk(parser.textKey, texts[$i].text.Literal, texts[$i].stringType)))
+//@     transition [C06,C09,C16:hoist-text] prev(indom(p.inlineTextsSet, mk(parser.textKey, texts[$i].text.Literal, texts[$i].stringType)))
 //@       ? (p.inlineTexts == prev(p.inlineTexts) && texts[prev($i)].command.Args[texts[prev($i)].argPos] == prev(p.inlineTextsSet[mk(parser.textKey, texts[$i].text.Literal, texts[$i].stringType)]))
 //@       : (len(p.inlineTexts) == len(prev(p.inlineTexts)) + 1
 //@          && p.inlineTexts[len(prev(p.inlineTexts))].Name == sprintf("%s_Text_%d", texts[prev($i)].scriptName, prev(indom(p.inlineTextCounts, texts[$i].scriptName) ? p.inlineTextCounts[texts[$i].scriptName] : 0))
@@ -791,6 +791,12 @@ package parser
 
 //@ func (p *Parser) parseFormatStringOperator
 //@   include ParseFrame
+// C07: the formatter is called on the written string with the font finally chosen, and every box parameter that was
+// not written comes from THAT font's entry in the font table (numLines falling back to 2)
+//@   loopinv [C07:params-inv] specifiedParams != nil && fresh(specifiedParams) && (!indom(specifiedParams, "numLines") ==> numLines == -1) && (!indom(specifiedParams, "cursorOverlapWidth") ==> cursorOverlapWidth == -1)
+//@   exit [C07:format-args] result3 == nil ==> (lastarg(FormatText, 1) == textToken.Literal && lastarg(FormatText, 4) == fontID && result0 == textToken && result1 == lastresult(FormatText, 0)
+//@        && ((indom(p.fonts.Fonts, fontID) && !indom(specifiedParams, "cursorOverlapWidth")) ==> lastarg(FormatText, 3) == p.fonts.Fonts[fontID].CursorOverlapWidth)
+//@        && ((indom(p.fonts.Fonts, fontID) && !indom(specifiedParams, "numLines")) ==> lastarg(FormatText, 5) == (p.fonts.Fonts[fontID].NumLines > 0 ? p.fonts.Fonts[fontID].NumLines : 2)))
 //@   ensures [C16,C18:text-token] result3 == nil ==> TokLoc(result0)
 //@   loopinv [C18:font-token] 1 <= fontIdToken.LineNumber && fontIdToken.LineNumber <= fontIdToken.EndLineNumber
 //@   ensures [C20:stack-balanced] result3 == nil ==> (SameStack(p.breakStack, old(p.breakStack)) && SameStack(p.continueStack, old(p.continueStack)))
